@@ -3,12 +3,16 @@
 package verifsim
 
 import (
+	"bytes"
 	"fmt"
+	"sort"
 	"strings"
+	"time"
 
 	"github.com/tokenized/pkg/bitcoin"
 	"github.com/tokenized/pkg/wire"
 	"github.com/tokenized/spynode/internal/state"
+	"verif.local/simrt"
 )
 
 // ---- C13: block request window, component level ------------------------------------------------
@@ -347,6 +351,10 @@ func init() {
 			}
 			c.Res.Nontrivial = true
 		}})
+	Register(&Check{Prop: "C13", Sub: "wire-window", Weight: 3, Real: txReal, Stub: txStub,
+		Req:  []string{"block_request_seen", "window_full", "branch_switch_seen", "unsolicited_sent", "converged"},
+		Rule: "the C01 chain scenarios (extend / reorg / flip-flop scripts, long initial chains, duplicated, reordered and stalled block deliveries, connection close/reset, restarts) plus unsolicited block bodies (later best-chain blocks, abandoned-branch blocks, old blocks again); judged from the getdata(block) history per connection and the HandleHeaders history: chain order, no skipping, new branch requested from the fork point, no repeat without an abandoned branch, at most ten requested and unannounced blocks (+1 being processed), nothing announced that was never requested.",
+		Run:  runC13Wire})
 	Register(&Check{Prop: "C13", Sub: "queue-exhaustive", Once: true,
 		Real: []string{"internal/state.State request queue"},
 		Run: func(c *Ctx) {
@@ -395,4 +403,238 @@ func init() {
 				c.Res.Summary = fmt.Sprintf("all %d sequences up to length %d over %d operations", c.Res.Cases, depth, len(alphabet))
 			}
 		}})
+}
+
+// ---- wire-level window oracle in whole-node runs -------------------------------------------------
+//
+// Observed: getdata(block) messages as the node wrote them on each trusted connection (parsed from
+// the node-side write log: exact time and order, independent of whether the peer ever read them)
+// and HandleHeaders callbacks (a block is "processed" once announced to handlers).
+
+type c13req struct {
+	at   time.Duration
+	seq  uint64
+	conn *PeerConn
+	b    *WBlock
+}
+
+func runC13Wire(c *Ctx) {
+	t := c.Scen
+	sc := genChainScenario(c, true)
+	// long chains so that the ten-block window is the binding constraint
+	if t.Bool(2, 3) {
+		sc.initLen = pickFrom(t, 14, 23, 35, 48)
+	}
+	for _, k := range []string{"hole", "dial"} { // long outages add nothing here
+		delete(sc.faults, k)
+	}
+	cr := newChainRun(c, sc)
+	ns := cr.ns
+	ns.KeepNodeWrites = true
+	if t.Bool(1, 2) {
+		ns.Trusted.Unsolicited, ns.Trusted.UnsolicitedBudget = 150, 1+int(t.Choose(4))
+		c.FaultConfigured("F-peer-unsolicited-block")
+	}
+	c.Res.Summary = sc.String()
+	done := false
+	simrt.Go("driver", func() {
+		defer func() { done = true }()
+		ns.StartNode()
+		restartAt := -1
+		if sc.faults["restart"] && len(sc.events) > 0 {
+			restartAt = int(t.Choose(uint32(len(sc.events) + 1)))
+		}
+		for i, ev := range sc.events {
+			if i == restartAt {
+				cr.restart()
+			}
+			simrt.Sleep(ev.after)
+			cr.apply(ev)
+		}
+		ok, _ := cr.settle() // convergence itself is C01's business
+		if ok {
+			c.Probe("converged")
+		}
+		simrt.NoPreempt(func() { c13judgeWire(c, ns) })
+		c.Res.Nontrivial = true
+	})
+	ns.S.Run(func() bool { return done })
+	if !done && len(c.Res.Violations) == 0 && c.Res.Inconclusive == "" && !ns.S.Zeno && !ns.S.StepCap {
+		c.Res.Inconclusive = "driver-stuck"
+	}
+	reportPanics(c, ns)
+}
+
+func c13judgeWire(c *Ctx, ns *NodeSim) {
+	tree := ns.Tree
+	// merge requests and announcements into one sequence ordered by event sequence number
+	type item struct {
+		seq  uint64
+		at   time.Duration
+		req  *c13req
+		ann  []*WBlock
+	}
+	var items []item
+	// requests as the node wrote them (exact time and order, whether or not the peer read them)
+	for _, pc := range ns.Trusted.Conns {
+		var stream []byte
+		type mark struct {
+			end int
+			w   WriteMark
+		}
+		var marks []mark
+		for _, w := range pc.NodeSide.WriteLog {
+			stream = append(stream, w.Data...)
+			marks = append(marks, mark{len(stream), w})
+		}
+		r := bytes.NewReader(stream)
+		mi := 0
+		for r.Len() > 0 {
+			_, msg, _, err := wire.ReadMessageN(r, wire.ProtocolVersion, simNet)
+			if err != nil {
+				break // a write cut short by a connection fault
+			}
+			off := len(stream) - r.Len()
+			for mi < len(marks)-1 && marks[mi].end < off {
+				mi++
+			}
+			gd, ok := msg.(*wire.MsgGetData)
+			if !ok {
+				continue
+			}
+			w := marks[mi].w
+			for _, iv := range gd.InvList {
+				if iv.Type != wire.InvTypeBlock {
+					continue
+				}
+				b := tree.ByHash[iv.Hash]
+				if b == nil {
+					c.Violate("unknown-request", "getdata", "the node requested block %s which the peer never announced", shortHash(iv.Hash))
+					continue
+				}
+				items = append(items, item{seq: w.Seq, at: w.At, req: &c13req{at: w.At, seq: w.Seq, conn: pc, b: b}})
+			}
+		}
+	}
+	for _, cb := range ns.Rec.Log {
+		if cb.Kind != "headers" || cb.Headers == nil {
+			continue
+		}
+		var bs []*WBlock
+		for _, h := range cb.Headers.Headers {
+			if b := tree.ByHash[*h.BlockHash()]; b != nil {
+				bs = append(bs, b)
+			}
+		}
+		items = append(items, item{seq: cb.Seq, at: cb.At, ann: bs})
+	}
+	// order by event sequence number; with equal numbers the callback came first (the recorder
+	// emits an event before it stores the callback, a write emits none)
+	sort.SliceStable(items, func(i, j int) bool {
+		if items[i].seq != items[j].seq {
+			return items[i].seq < items[j].seq
+		}
+		return items[i].ann != nil && items[j].ann == nil
+	})
+	startH := 0
+	if ns.Start != nil {
+		startH = ns.Start.Height
+	}
+	announced := map[*WBlock]bool{}   // ever announced to handlers so far
+	everRequested := map[*WBlock]bool{}
+	var curConn *PeerConn
+	var win []*WBlock                 // requested on curConn, neither announced since nor abandoned
+	var prev *WBlock                  // previous request on curConn
+	reqOnConn := map[*WBlock]int{}    // requests per block on curConn since the last branch switch away from it
+	maxWin := 0
+	for _, it := range items {
+		if it.ann != nil {
+			for _, b := range it.ann {
+				if b.Height >= startH && b.Txs != nil && !everRequested[b] {
+					key := "never-requested"
+					if ns.Trusted.UnsolicitedSent[b.Hash] {
+						key = "unsolicited-body-accepted"
+					}
+					c.Violate("unrequested-processed", key, "block %s was announced to handlers at t=%v but the node had not written a getdata for it", b, it.at)
+				}
+				announced[b] = true
+				for i, w := range win {
+					if w == b {
+						win = append(win[:i:i], win[i+1:]...)
+						break
+					}
+				}
+			}
+			continue
+		}
+		r := it.req
+		b := r.b
+		if r.conn != curConn {
+			curConn, win, prev = r.conn, nil, nil
+			reqOnConn = map[*WBlock]int{}
+		}
+		c.Probe("block_request_seen")
+		held := func(x *WBlock) bool { return x == nil || announced[x] || x.Height < startH || x == ns.Start }
+		switch {
+		case prev == nil:
+			if !held(b.Parent) {
+				c.Violate("order", "first-request-of-connection", "first block request on %s is %s whose parent %s the node does not hold (never announced to handlers, not below the start block)", r.conn, b, b.Parent)
+			}
+		case b.Parent == prev:
+			// next in chain order
+		case IsAncestor(prev, b):
+			c.Violate("order", "skipped", "block request for %s follows the request for %s on %s: %d block(s) in between were not requested first", b, prev, r.conn, b.Height-prev.Height-1)
+		case b == prev || IsAncestor(b, prev):
+			// going back on the same branch: judged as a repeat below
+		default:
+			// another branch: requests beyond the fork point are discarded, the new branch is
+			// requested from the first block after the fork
+			c.Probe("branch_switch_seen")
+			f := ForkPoint(b, prev)
+			if b.Parent != f && !held(b.Parent) {
+				c.Violate("order", "new-branch-not-from-fork", "after a fork at %s (previous request %s) the first request on the new branch is %s, whose parent %s is neither the fork point nor held", f, prev, b, b.Parent)
+			}
+			keep := win[:0:0]
+			for _, w := range win {
+				if IsAncestor(w, b) {
+					keep = append(keep, w)
+				}
+			}
+			win = keep
+			for x := range reqOnConn {
+				if !IsAncestor(x, b) {
+					delete(reqOnConn, x) // its branch was abandoned: it may be requested again
+				}
+			}
+		}
+		reqOnConn[b]++
+		if reqOnConn[b] > 1 {
+			c.Violate("repeat", "same-connection", "block %s was requested %d times on %s without its branch having been abandoned in between", b, reqOnConn[b], r.conn)
+		}
+		everRequested[b] = true
+		already := false
+		for _, w := range win {
+			if w == b {
+				already = true
+			}
+		}
+		if !already && !announced[b] {
+			win = append(win, b)
+		}
+		if len(win) > maxWin {
+			maxWin = len(win)
+		}
+		// ten in the window plus the one block that has left the window and is being processed
+		if len(win) > 11 {
+			c.Violate("window", "more-than-ten-outstanding", "%d blocks requested on %s and not yet announced to handlers at t=%v (latest %s); the window is ten", len(win), r.conn, r.at, b)
+			win = win[1:]
+		}
+		prev = b
+	}
+	if maxWin >= 10 {
+		c.Probe("window_full")
+	}
+	if len(ns.Trusted.UnsolicitedSent) > 0 {
+		c.Probe("unsolicited_sent")
+	}
 }
